@@ -4,6 +4,8 @@
 mod common;
 mod hc;
 mod c06;
+mod c11;
+mod worker;
 mod c12;
 mod c15;
 mod c19;
@@ -16,6 +18,7 @@ fn main() {
     let code = match args.as_slice() {
         [cmd, file] if cmd == "replay" => replay(file),
         [cmd, file] if cmd == "gen-worker" => c12::gen_worker(file),
+        [cmd] if cmd == "worker" => worker::worker_main(),
         [id, tier] => {
             let tier = match tier.as_str() {
                 "quick" => Tier::Quick,
@@ -37,6 +40,7 @@ fn usage() -> ! {
 fn run(id: &str, tier: Tier) -> i32 {
     match id {
         "C06" => c06::run(tier),
+        "C11" => c11::run(tier),
         "C12" => c12::run(tier),
         "C15" => c15::run(tier),
         "C19" => c19::run(tier),
@@ -52,6 +56,7 @@ fn replay(file: &str) -> i32 {
     let v: serde_json::Value = serde_json::from_str(&text).expect("replay file is JSON");
     match v["property"].as_str().unwrap_or("") {
         "C06" => c06::replay(&v["case"]),
+        "C11" => c11::replay(&v["case"]),
         "C12" => c12::replay(&v["case"]),
         "C15" => c15::replay(&v["case"]),
         "C19" => c19::replay(&v["case"]),
